@@ -13,7 +13,7 @@ from .contracts_rt import Contract, RecSpec
 from . import solve
 
 VERIF = os.path.dirname(os.path.dirname(os.path.abspath(__file__)))
-CONTRACT_MODULES = ["schema", "writer", "enclosing", "month", "library", "model", "entrypoint", "interpolate", "fieldorder", "splitter", "names", "latex", "sortblocks", "middleware"]
+CONTRACT_MODULES = ["schema", "writer", "enclosing", "month", "library", "model", "entrypoint", "interpolate", "fieldorder", "splitter", "names", "latex", "sortblocks", "middleware", "defaultparse"]
 
 
 def load_contracts(modules=None):
